@@ -14,6 +14,10 @@ Streams
   (L) larger fragments: |other| 9..16, |self| >= |other|, identity maps that cover all but 2..4 atoms of other, the
       unmapped indices spread over low (< 8) and high (>= 8) positions, with terms that touch the unmapped atoms
       (the order in which the few new atoms are appended, and where the terms land, only shows here);
+  (S) extra fields held the way the constructor holds them when it is given plain lists of strings: FIXED-WIDTH numpy
+      string arrays (core.atoms_from_json builds object arrays).  Self carries short values, other long ones, on
+      atoms and on every term kind, always with a non-empty identity map, default / zero / extend_types offsets: the
+      adopted and appended values must arrive verbatim, not cut to the width of self's column;
   (K) known finding, reproduced on every run: default-offset extends in which exactly ONE kind breaks the
       compatibility clause of the Lean theorem `extend_resolves` (self uses ids of that kind beyond its own coefficient
       table - no table, or a short one - while other brings a table; or self has atom types but no pair-coefficient
@@ -38,7 +42,8 @@ RULE = ("pairs (self, other) of random consistent Atoms (1..3 atoms quick / 1..4
         "coefficient tables present or absent, extra columns on atoms and terms with overlapping / disjoint labels; "
         "offsets default, explicit zero, or those returned by extend_types; override stream with forward / reversed / "
         "permuted listings, duplicate and palindromic terms; twice-extension with shared offsets; larger fragments "
-        "(9..16 atoms, all but 2..4 mapped, unmapped indices both below and above 8, terms on the unmapped atoms). Text resolution of new ids is "
+        "(9..16 atoms, all but 2..4 mapped, unmapped indices both below and above 8, terms on the unmapped atoms); "
+        "extra fields as fixed-width numpy string arrays with short values in self and long ones in other. Text resolution of new ids is "
         "demanded everywhere; where self uses ids beyond its own coefficient table (or has no pair table) while other "
         "brings one, the failure is attributed to the known finding coefficient-table-misaligned (a dedicated stream "
         "reproduces it on every run for one kind at a time), every other failure is reported untagged. Non-trivial = distinct input in which other "
@@ -180,12 +185,30 @@ def _norm(aj):
         return core.canon_atoms(core.atoms_from_json(aj))
 
 
-def _extend(aj, bj, offsets, mp):
+EXTRA_FIELD_ATTRS = ["extra_atom_fields", "extra_bond_fields", "extra_angle_fields", "extra_dihedral_fields",
+                     "extra_improper_fields"]
+
+
+def _as_string_arrays(at):
+    """hold every non-empty extra-field table as a fixed-width numpy string array (what `Atoms(...)` stores when it is
+    given plain python lists of strings)"""
+    import numpy as np
+    for name in EXTRA_FIELD_ATTRS:
+        arr = getattr(at, name)
+        if getattr(arr, "size", 0) > 0:
+            setattr(at, name, np.array([[str(v) for v in row] for row in arr]))
+    return at
+
+
+def _extend(aj, bj, offsets, mp, strfields=False):
     side = {}
 
     def f():
         a = core.atoms_from_json(aj)
         b = core.atoms_from_json(bj)
+        if strfields:
+            _as_string_arrays(a)
+            _as_string_arrays(b)
         m = {int(k): int(v) for k, v in mp}
         m0 = dict(m)
         b0 = core.canon_atoms(b)
@@ -366,6 +389,34 @@ def large_fragment_case(rng):
     return a, _norm(b), mp
 
 
+def string_field_case(rng):
+    """both structures carry extra columns on atoms and on every term kind; self's values are short (2..3 characters),
+    other's are long; the identity map is never empty"""
+    na, nb = rng.randint(4, 7), rng.randint(4, 6)
+    coeffs = rng.choice([True, False])
+    a = gen.rand_atoms(rng, n=na, kinds=KINDS, coeffs=coeffs, pair=True, extras=True, cell=False,
+                       term_density=rng.randint(1, 3))
+    b = gen.rand_atoms(rng, n=nb, kinds=KINDS, coeffs=coeffs, pair=True, extras=True, cell=False,
+                       term_density=rng.randint(1, 2))
+    cnt = [0]
+
+    def relabel(rows, short):
+        for row in rows:
+            for i in range(len(row["x"])):
+                cnt[0] += 1
+                row["x"][i] = ("s%d" % (cnt[0] % 10)) if short else ("other_long_value_%03d" % cnt[0])
+    relabel(a["atoms"], True)
+    relabel(b["atoms"], False)
+    for k in KINDS:
+        relabel(a["terms"][k], True)
+        relabel(b["terms"][k], False)
+    if rng.random() < 0.5:
+        b = rename_labels(rng, b)
+    size = rng.randint(1, min(na, nb))
+    mp = [[x, v] for x, v in zip(rng.sample(range(nb), size), rng.sample(range(na), size))]
+    return _norm(a), _norm(b), mp
+
+
 def offsets_choice(rng, a, b, i):
     """0: default, 1: explicit zero ('ids already shared'), 2: the offsets extend_types returns (applied to its result)"""
     return [None, "zero", "types"][i % 3]
@@ -416,6 +467,12 @@ def cases(ctx):
             continue
         made += 1
         out.append(("o", make_case(w[0], w[1], w[2], offsets_choice(rng, w[0], w[1], made))))
+    # (S) extra fields as fixed-width string arrays, short in self, long in other
+    for s in range(ctx.n(60, 500)):
+        a, b, mp = string_field_case(rng)
+        c = make_case(a, b, mp, offsets_choice(rng, a, b, s))
+        c["strfields"] = True
+        out.append(("S", c))
     # (L) larger fragments, nearly all atoms mapped
     for s in range(ctx.n(80, 600)):
         a, b, mp = large_fragment_case(rng)
@@ -441,7 +498,7 @@ def supersedes(inp):
 
 def check_extend(ctx, stream, inp):
     """run one extend on the real code, apply the oracle; returns the implementation result for the tie"""
-    r, side = _extend(inp["a"], inp["b"], inp["offsets"], inp["map"])
+    r, side = _extend(inp["a"], inp["b"], inp["offsets"], inp["map"], bool(inp.get("strfields")))
     bad, known = judge(inp, r, side)
     has_terms = any(inp["b"]["terms"][k] for k in KINDS)
     sup = supersedes(inp)
@@ -580,7 +637,7 @@ def run(ctx, oracle_only=False):
     ops, impls = [], []
     for stream, inp in cases(ctx):
         r = check_extend(ctx, stream, inp)
-        ops.append({k: v for k, v in inp.items() if k not in ("via", "a0")})
+        ops.append({k: v for k, v in inp.items() if k not in ("via", "a0", "strfields")})
         impls.append(r)
     # (K) the known finding, one kind at a time
     for k, how in known_cases(ctx):
@@ -676,6 +733,6 @@ def replay(ctx, rec):
             return False
         r2, _ = _extend(r1["ok"], b, et["offsets"], [])
         return oracle_twice(a, b, et["offsets"], r1, r2) is None
-    r, side = _extend(inp["a"], inp["b"], inp["offsets"], inp["map"])
+    r, side = _extend(inp["a"], inp["b"], inp["offsets"], inp["map"], bool(inp.get("strfields")))
     bad, known = judge(inp, r, side)
     return bad is None and known is None
